@@ -81,6 +81,8 @@ def plan(tier, seed):
         cfgs += [sd.debug_selection_config(rng) for _ in range(60)]
         cfgs += [sd.seq_defer_config(rng) for _ in range(40)]
         cfgs += [sd.reconf_config(rng) for _ in range(40)]
+        cfgs += [sd.pool_pressure_config(rng) for _ in range(40)]
+        cfgs += [sd.seq_hold_config(rng) for _ in range(16)]
         opts = {"max_runs": 120}
     else:
         cfgs = sd.small_configs(2, (1, 2), rng, sample=None, prios=True)
@@ -90,6 +92,8 @@ def plan(tier, seed):
         cfgs += [sd.debug_selection_config(rng) for _ in range(600)]
         cfgs += [sd.seq_defer_config(rng) for _ in range(500)]
         cfgs += [sd.reconf_config(rng) for _ in range(500)]
+        cfgs += [sd.pool_pressure_config(rng) for _ in range(500)]
+        cfgs += [sd.seq_hold_config(rng) for _ in range(120)]
         opts = {"max_runs": 400}
     return cfgs, opts
 
